@@ -3,6 +3,11 @@ _TB = ("Trusted: Lean 4.33 kernel, Mathlib v4.33, axioms propext/Classical.choic
        "the py2lean translator with its typing sheets and the Prelude/Jnp.lean primitive specs (validated by the correspondence on every run); "
        "theorems are over ℝ — IEEE rounding is measured by the correspondence, not proved.")
 
+_TB2 = ("Trusted: Lean 4.33 kernel (core library only for these two properties), axioms propext/Classical.choice/Quot.sound (audited per run, "
+        "no sorry/native_decide); the hand-written model lean/Flowjaxv/Model/Train.lean, whose tie to flowjax/train/*.py is the "
+        "differential correspondence re-run on every check (scripted loss + counting optimiser / index-tagged rows + recording loss_fn, "
+        "keys recomputed from the model's split-tree paths); JAX's jr.split/jr.permutation are treated as deterministic functions of the key.")
+
 claim("C01", "Lean 4 theorems about definitions regenerated from the source (py2lean) + Float correspondence",
       "For every parameter value satisfying the constructor's constraint and every real input, the generated Affine/Loc/Scale/Exp/SoftPlus/Tanh/LeakyTanh "
       "kernels are mutually inverse on their (co)domains and the generated Chain/Invert preserve that for any tree depth; the generated definitions are "
@@ -122,5 +127,25 @@ claim("C18", "Lean 4 theorems about a reverse-mode (vjp) model over ASTs regener
       _TB + " Model/Ad.lean's cotangent rules are a hand model of JAX autodiff (validated, not proved); EF has exact finite arithmetic: overflow (exp of large arguments), rounding "
       "and signed zeros are outside the model and covered by the correspondence/oracle only; network conditioners and whole factories are covered by the oracle only.", "DESIGN.md §5 C18")
 
-for _p in ["C02","C04","C06","C14","C15","C16","C17"]:
+claim("C15", "Lean 4 theorems (all n, batch sizes, split sizes, permutations, epochs) about a hand-written index-flow/key-schedule model + exact call-by-call correspondence with the real fit_to_data",
+      "For every dataset size n, every 0 < n_val < n, every batch_size >= 1, every number of epochs and EVERY family of permutations standing for "
+      "jr.permutation: train and validation parts partition the dataset; each array is the image of one index run (x and condition rows stay paired); "
+      "per epoch no row is used twice, exactly the last n_train mod b' rows of that epoch's order are skipped (< one batch); validation rows never "
+      "reach a gradient step; batch counts and shapes; all consumed keys are distinct nodes of the split tree and none is split again; the run is a "
+      "function of the permutations at its shuffle keys. The real fit_to_data is compared call by call (rows of every array, key, train/val, order) "
+      "with the model on the permutations JAX draws for the model's key paths.",
+      _TB2 + " Key distinctness is proved for tree paths and for any split that is injective in (parent, index) and never returns the root; that "
+      "threefry is such a function is assumed (observed per run). n_val = round(val_prop*n) is an input of the theorems; its float rounding is checked by the correspondence.",
+      "DESIGN.md §5 C15")
+
+claim("C16", "Lean 4 theorems (all loss sequences of pairwise-distinct values of any length, all patience/max values) about loop models as folds + exhaustive correspondence with the real loops under a scripted loss and a counting optimiser",
+      "fit_to_data: at most max_epochs epochs; it stops after the first epoch e with e - argmin(val[0..e]) > max_patience and at no earlier epoch, else runs "
+      "max_epochs; one train and one validation loss per epoch run; return_best returns the parameters after the epoch of minimum validation loss, otherwise "
+      "the last; max_epochs = 0 returns the initial parameters. fit_to_variational_target: exactly `steps` steps, one loss per step, return_best returns the "
+      "pre-update parameters of the argmin step (the parameters the minimum loss was evaluated at). The pre-0ab1adc behaviour (post-update parameters) is "
+      "proved to violate this on [1,4,16,64]. Real loops are compared with the model on every permutation of 1..L (L<=5 quick, <=6 thorough, a random half of L=7 at "
+      "sampled settings) x patience x max x return_best, jit enabled and disabled, single- and multi-batch epochs.",
+      _TB2 + " Ties and NaN losses are outside the property's quantifier (the model resolves ties as the code does, unproved).", "DESIGN.md §5 C16")
+
+for _p in ["C02","C04","C06","C14","C17"]:
     NOT_YET[_p] = "not yet built in this round: theorems and correspondence under construction (see DESIGN.md §8); never claimed on the strength of the harness alone"
